@@ -1,7 +1,7 @@
 CONSTANTS NTests = 1 Deviations = {} PreChoices = {"both"}
 CONSTANTS OptUniverse = {"coverage", "profile", "buffer"}
 CONSTANTS PreDebugChoices = {{"DEBUG_STATS"}} GChoices = {{"DEBUG_UNCOLLECTABLE"}} V4Choices = {FALSE}
-CONSTANTS NestChoices = {TRUE} InnerOptUniverse = {"gc", "G", "coverage", "profile", "buffer", "warnings"}
+CONSTANTS NestChoices = {TRUE} InnerOptUniverse = {"G", "coverage", "profile", "buffer", "warnings"}
 CONSTANTS InnerEndings = {"normal", "kbint"} MaxNest = 1
 SPECIFICATION Spec
 INVARIANT Restored
